@@ -785,8 +785,19 @@ def check_case(ctx, lib, case, tags=()):
                 if writer_refused:
                     ctx.count("cli-output-file-not-writable:%s (table handed to the writer is judged)" % cli_fmt)
                 else:
-                    add(nm + ":file-" + cli_fmt, view_cli, guarded(table_loaded), file_md, pr_name, cli=True,
-                        agree_md=file_md)
+                    readable = True
+                    if not file_md:
+                        # list-valued metadata under a name HDF5 has no list formatter for: with a '/' in that name the
+                        # written file holds a nested group and cannot be read back at all (outside C04's mdDomain, C01's
+                        # business) — counted, not judged; the table handed to the writer has been judged above
+                        try:
+                            table_loaded()
+                        except Exception:  # noqa
+                            readable = False
+                            ctx.count("hdf5-file-with-list-under-generic-name-unreadable (C01/C04 domain)")
+                    if readable:
+                        add(nm + ":file-" + cli_fmt, view_cli, guarded(table_loaded), file_md, pr_name, cli=True,
+                            agree_md=file_md)
                 if (conv_exc is None or writer_refused) and "t" in handed:
                     if handed["t"].type != want_type:
                         mapping_failures.append("--table-type not honoured: %r" % (handed["t"].type,))
